@@ -101,8 +101,30 @@ def _post_routine(sc):
     return post
 
 
+CREATE_APIS = ("create_keep", "create_keep_with_info", "create_rsp", "create_measure")
+
+
+def _call_create(sock, sc):
+    api, mode, n = sc["api"], sc["mode"], sc["n"]
+    kw = dict(number=n)
+    if api.startswith("create_keep"):
+        if mode in ("post", "seq"):
+            kw["post_routine"] = _post_routine(sc)
+            kw["sequential"] = mode == "seq"
+    elif mode != "plain":
+        raise ValueError("post routines exist for create_keep only")
+    out = getattr(sock, api)(**kw)
+    if api == "create_keep_with_info":
+        return out[0], out[1]
+    if api in ("create_rsp", "create_measure"):
+        return [], out
+    return out, None
+
+
 def _call_api(sock, sc, conn):
     api, mode, n = sc["api"], sc["mode"], sc["n"]
+    if api in CREATE_APIS:
+        return _call_create(sock, sc)
     kw = dict(number=n, expect_phi_plus=sc.get("expect", True))
     if api in ("recv_keep", "recv_keep_with_info"):
         if mode in ("post", "seq"):
@@ -436,3 +458,170 @@ def joint_distribution(bell, rot_local, rot_remote):
 def basis_rotations():
     from netqasm.sdk.build_epr import EprMeasBasis, basis_to_rotation
     return {m.name: tuple(int(x) for x in basis_to_rotation(m)) for m in EprMeasBasis}
+
+
+# ------------------------------------------------------------------ both ends of the pairs
+
+
+class JointExecutor(P.StateVectorExecutor):
+    """One node of a two-node run: both executors share one state vector; this node's physical
+    qubit p is qubit `offset + p` of it."""
+
+    def __init__(self, shared, offset, n_total, **kw):
+        self._shared = shared
+        self.offset = offset
+        super().__init__(n_phys=n_total, **kw)
+
+    @property
+    def state(self):
+        return self._shared["state"]
+
+    @state.setter
+    def state(self, v):
+        self._shared["state"] = v
+
+    def _get_position(self, subroutine_id=None, address=0, app_id=None):
+        return super()._get_position(subroutine_id=subroutine_id, address=address, app_id=app_id) + self.offset
+
+
+class EndConn(P.PipelineConnection):
+    """One end of the link. The link (shared dict) decides once per pair which physical qubit of each
+    node holds the pair and writes the delivered Bell state when the first end is served."""
+
+    def configure(self, role, n, bells, n_local, link, peer_id):
+        self.role, self.n_pairs, self.bells, self.n_local = role, n, bells, n_local
+        self.link, self.peer_id, self.delivered = link, peer_id, 0
+
+    def on_wait(self):
+        ex = self.executor
+        before = len(ex._pending_epr_responses)
+        if before:
+            ex._handle_pending_epr_responses()
+            if len(ex._pending_epr_responses) < before:
+                return True
+        if self.delivered >= self.n_pairs:
+            return False
+        i = self.delivered
+        self.delivered += 1
+        b = self.bells[i]
+        link = self.link
+        if len(link["pairs"]) <= i:
+            pc = link["n_local"]["create"] - 1 - i
+            pr = link["n_local"]["recv"] - 1 - i
+            gc, gr = link["offset"]["create"] + pc, link["offset"]["recv"] + pr
+            _write_pair(ex, gc, gr, BELL_VECS[b])
+            link["pairs"].append({"create": pc, "recv": pr, "bell": b})
+        p = link["pairs"][i][self.role]
+        ex._handle_epr_response(LinkLayerOKTypeK(
+            type=ReturnType.OK_K, create_id=0, logical_qubit_id=p,
+            directionality_flag=1 if self.role == "recv" else 0, sequence_number=i, purpose_id=0,
+            remote_node_id=self.peer_id, goodness=0, goodness_time=0, bell_state=BellState(b)))
+        return True
+
+
+def _n_local(hw, live, n):
+    return live + n + (n + 1 if hw != "generic" else 0)
+
+
+def execute_both(sc):
+    """Creator program and receiver program on two real executors over one joint state vector, the
+    same Bell tuple delivered to both. sc: n, bells, expect (receiver), and per end
+    hw_c/api_c/mode_c/live_c, hw_r/api_r/mode_r/live_r."""
+    P.reset_globals()
+    n = sc["n"]
+    ends = {"create": dict(hw=sc["hw_c"], api=sc["api_c"], mode=sc["mode_c"], live=sc.get("live_c", 0), n=n,
+                           name="alice", peer="bob", node=0, peer_node=1),
+            "recv": dict(hw=sc["hw_r"], api=sc["api_r"], mode=sc["mode_r"], live=sc.get("live_r", 0), n=n,
+                         expect=sc.get("expect", True), name="bob", peer="alice", node=1, peer_node=0)}
+    nl = {r: _n_local(e["hw"], e["live"], n) for r, e in ends.items()}
+    offset = {"create": 0, "recv": nl["create"]}
+    n_total = nl["create"] + nl["recv"]
+    shared = {}
+    link = {"pairs": [], "n_local": nl, "offset": offset}
+    obs = {"status": "ok"}
+    conns = []
+    try:
+        info = {}
+        for role in ("create", "recv"):
+            e = ends[role]
+            ex = JointExecutor(shared, offset[role], n_total, name=e["name"], node_id=e["node"])
+            e["ex"] = ex
+        shared["state"] = np.zeros(2 ** n_total, dtype=complex)
+        shared["state"][0] = 1
+        for role in ("create", "recv"):
+            e = ends[role]
+            ex = e["ex"]
+            sock = EPRSocket(e["peer"])
+            conn = EndConn(e["name"], executor=ex, epr_sockets=[sock], node_ids={"alice": 0, "bob": 1},
+                           **_hardware(e["hw"]))
+            conns.append(conn)
+            conn.configure(role, n, sc["bells"], nl[role], link, e["peer_node"])
+            live = [Qubit(conn) for _ in range(e["live"])]
+            for k, q in enumerate(live):
+                prepare_live(q, k + (1 if role == "recv" else 0))
+            conn.flush()
+            unit = ex._qubit_unit_modules[conn.app_id]
+            live_states = [reduced(ex.state, ex.n, [offset[role] + unit[q.qubit_id]]) for q in live]
+            try:
+                qubits, _ = _call_api(sock, e, conn)
+            except (AssertionError, ValueError) as err:
+                obs["status"] = "build-raises"
+                obs["error"] = f"{role}: {type(err).__name__}: {err}"
+                return obs
+            try:
+                conn.flush()
+            except Exception as err:  # noqa: BLE001
+                obs["status"] = "blocked" if "blocked on a wait" in str(err) else "runtime-fault"
+                obs["error"] = f"{role}: {type(err).__name__}: {err}"[:300]
+                return obs
+            info[role] = dict(handle_ids=[q.qubit_id for q in qubits], live=live, live_states=live_states,
+                              unit=ex._qubit_unit_modules[conn.app_id], app=conn.app_id)
+            obs[role + "_rotations"] = [t[1:] for t in ex.trace if t[0] == "rot"][-12:]
+        state = shared["state"]
+        locs = {}
+        for role in ("create", "recv"):
+            e, inf = ends[role], info[role]
+            locs[role] = []
+            for i, pr in enumerate(link["pairs"]):
+                if e["mode"] == "plain":
+                    ph = inf["unit"][inf["handle_ids"][i]]
+                else:
+                    ph = pr[role]
+                locs[role].append(None if ph is None else offset[role] + ph)
+        expect = sc.get("expect", True)
+        obs["fid"] = []
+        for i, pr in enumerate(link["pairs"]):
+            a, b = locs["create"][i], locs["recv"][i]
+            want = BELL_VECS[BellState.PHI_PLUS.value] if expect else BELL_VECS[pr["bell"]]
+            obs["fid"].append(-1.0 if a is None or b is None else fidelity(state, n_total, [a, b], want))
+        obs["live_fid"] = []
+        for role in ("create", "recv"):
+            inf = info[role]
+            for k, q in enumerate(inf["live"]):
+                ph = inf["unit"][q.qubit_id]
+                if ph is None:
+                    obs["live_fid"].append(-1.0)
+                    continue
+                rho = reduced(state, n_total, [offset[role] + ph])
+                obs["live_fid"].append(float(np.real(np.trace(rho @ inf["live_states"][k]))))
+        obs["handle_ids"] = {r: info[r]["handle_ids"] for r in info}
+        return obs
+    finally:
+        for c in conns:
+            _abandon(c)
+
+
+def judge_both(sc, obs, tol=1e-9):
+    bad = []
+    if obs["status"] != "ok":
+        return bad
+    for i, f in enumerate(obs["fid"]):
+        if abs(f - 1) > tol:
+            bad.append({"pair": i, "bell": sc["bells"][i], "joint_fidelity": round(f, 6),
+                        "wanted": "phi+" if sc.get("expect", True) else "delivered state untouched",
+                        "creator_rotations": obs.get("create_rotations"),
+                        "receiver_rotations": obs.get("recv_rotations")})
+    for k, f in enumerate(obs["live_fid"]):
+        if abs(f - 1) > tol:
+            bad.append({"live_qubit": k, "fidelity": round(f, 6), "wanted": "unchanged"})
+    return bad
